@@ -35,13 +35,16 @@ theorem sameOthers_refl (addr : Addr) (a : ServerStream) : SameOthers addr a a :
 theorem sameOthers_trans {addr : Addr} {a b c : ServerStream} (h1 : SameOthers addr a b) (h2 : SameOthers addr b c) :
     SameOthers addr a c := fun k hk => (h1 k hk).trans (h2 k hk)
 
+theorem gate_s (up : Bool) (r : SR) : (r.gate up).s = r.s := by
+  unfold SR.gate; split <;> rfl
+
 /-- one packet from `addr` leaves every connection with another remote address exactly as it was -/
 theorem handle_frame (env : Env) (now : Time) (rnd : Rnd) (up : Bool) (s : ServerStream) (p : Packet) (addr : Addr) :
     SameOthers addr (s.handle env now rnd up p addr).s s := by
   intro k hk
   unfold ServerStream.handle
   by_cases h1 : p.type = TYPE_SYN ∧ (!hasAck p.flags) = true
-  · rw [if_pos h1, server_syn_stateless]
+  · rw [if_pos h1, gate_s, server_syn_stateless]
   · rw [if_neg h1]
     by_cases h2 : p.type = TYPE_CONNECT ∧ (!hasAck p.flags) = true
     · rw [if_pos h2]
